@@ -69,7 +69,7 @@ func fieldRoles(r *Run) map[string]string {
 				continue
 			}
 			core.Instrs(f, func(in ssa.Instruction) {
-				if c, ok := in.(ssa.CallInstruction); ok && core.CalleeID(c) == "(*sync/atomic.Value).Load" {
+				if c, ok := in.(ssa.CallInstruction); ok && strings.HasPrefix(core.CalleeID(c), "(*sync/atomic.") && strings.HasSuffix(core.CalleeID(c), ".Load") && len(c.Common().Args) == 1 {
 					if a := core.Addr(c.Common().Args[0]); a.Field != "" {
 						out[a.Field] = role
 					}
